@@ -391,7 +391,75 @@ def near_max_line_cases():
                 yield {"cmds": cmds, "sched": sched}
 
 
-DRIVERS = {"session": drive_session}
+def long_line_cases():
+    """a reply line is one line however long it is (Tor's are not limited to 16 or 64 KiB)"""
+    for n in (70000, 300000):
+        rep = {"code": 250, "parts": [["mid", "address-mappings/all=" + "m" * n]], "final": "OK"}
+        yield {"cmds": [{"kind": "plain", "text": "GETINFO address-mappings/all", "reply": rep, "then": 0, "cbret": None},
+                        {"kind": "lines", "text": "GETINFO version", "reply": rep, "then": 0, "cbret": None}],
+               "sched": [0, 0, 1448, 100000, 10 ** 9]}
+
+
+def pair_cases():
+    """two control connections in one process: nothing of one may leak into the other (per-connection state kept on
+    the class instead of the instance shows only here)"""
+    return st.builds(lambda a, b, order: {"a": a, "b": b, "order": order},
+                     st.builds(lambda c, s_: {"cmds": c, "sched": s_},
+                               st.lists(commands(long=False, max_parts=3), min_size=1, max_size=4), schedules()),
+                     st.builds(lambda c, s_: {"cmds": c, "sched": s_},
+                               st.lists(commands(long=False, max_parts=3), min_size=1, max_size=4), schedules()),
+                     st.lists(st.integers(0, 1), max_size=80))
+
+
+def drive_pair(case):
+    res = Result()
+    runs = [_Session(case["a"]), _Session(case["b"])]
+    its = [iter(r.case["sched"]) for r in runs]
+    alive = [True, True]
+
+    def step(i):
+        try:
+            stp = next(its[i])
+        except StopIteration:
+            alive[i] = False
+            return
+        if stp == 0:
+            runs[i].submit_next()
+        else:
+            runs[i].pipe.deliver(stp)
+    for i in case["order"]:
+        if alive[i]:
+            step(i)
+    for i in (0, 1):
+        while alive[i]:
+            step(i)
+    # flush both, alternating one delivery at a time
+    for r in runs:
+        while r.submit_next():
+            pass
+    guard = 0
+    while any(r.pipe.pending for r in runs) and guard < 4000:
+        guard += 1
+        for r in runs:
+            if r.pipe.pending:
+                r.pipe.deliver(7)
+    mid = False
+    for nm, r in zip("AB", runs):
+        cmds = r.case["cmds"]
+        written = r.pipe.commands[r.n_boot:]
+        if written != [c["text"] for c in cmds] or r.pipe.inbuf:
+            res.bad("pair/wire-order", "connection %s wrote %r, submitted %r" % (nm, written, [c["text"] for c in cmds]))
+        if r.pipe.escaped:
+            res.bad("pair/exception-escaped", "connection %s: %r" % (nm, r.pipe.escaped[0]))
+        check_outcomes(res, cmds, r.watches, r.lines, prefix="pair/%s/" % nm)
+        if any(len(wire.reply_lines(c["reply"])) >= 2 for c in cmds):
+            mid = True
+    res.nontrivial = mid and len(case["order"]) >= 4
+    res.label("two-connections-interleaved")
+    return res
+
+
+DRIVERS = {"session": drive_session, "pair": drive_pair}
 
 MANIFEST = {
     "text": "Generated-input search (Hypothesis) over command sessions x well-formed reply shapes x byte "
@@ -410,6 +478,8 @@ MANIFEST = {
 def run(ctx):
     ctx.search("session", cases(), quick=1200, thorough=6000)
     ctx.enumerate("session", byte_at_a_time_cases(), name="byte-at-a-time", exhaustive=False)
+    ctx.enumerate("session", long_line_cases(), name="reply-lines-of-70-300-kB", exhaustive=False)
+    ctx.search("pair", pair_cases(), quick=200, thorough=1500, name="pair")
     if not ctx.quick():
         ctx.enumerate("session", two_cut_cases(), name="two-cut-segmentations")
         ctx.enumerate("session", near_max_line_cases(), name="lines-near-the-1MiB-limit", exhaustive=False)
